@@ -7,7 +7,7 @@ from typing import List, Optional, Tuple
 
 from ..collect import Path, callee_is, run_paths
 from ..common import calls_in, construct, where
-from ..flow import NONE, Value, contains, show, subterms
+from ..flow import NONE, Value, contains, show, split_prefix, split_suffix, subterms
 from ..loader import AnalysisError, ClassInfo, FuncInfo, Program, walk_shallow
 from ..report import Report
 
@@ -54,11 +54,10 @@ def _req_path(v: Value, side: str) -> bool:
 
 def _confined(v: Value, side: str) -> Optional[str]:
     """None if v is  ensure_absolute_path(<request path>) [+ safe constant suffix]* ; otherwise why not."""
-    while v[0] == "binop" and v[1] == "Add" and v[3][0] == "const" and isinstance(v[3][1], str):
-        suf = v[3][1]
+    while split_suffix(v) is not None:
+        v, suf = split_suffix(v)
         if ".." in suf or "/" in suf.strip("/") or "\\" in suf or suf.startswith("/"):
             return f"suffix {suf!r} can leave the resolved file"
-        v = v[2]
     if v[0] == "call" and callee_is(v[1], "ensure_absolute_path") and len(v[2]) == 1:
         if _req_path(v[2][0], side):
             return None
@@ -205,10 +204,10 @@ def run(p: Program, rep: Report, tier: str) -> None:
     for pa in nonnull:
         v = pa.value
         core = v
-        while core[0] == "binop" and core[1] == "Add" and core[3][0] == "const":
-            if core[3][1] not in ("/",):
-                rep.violation("R7.2", construct(eap, text=f"suffix {core[3][1]!r}"), where(eap), "the sanitiser appends something other than the constant '/' after normalising")
-            core = core[2]
+        while split_suffix(core) is not None:
+            core, suf_ = split_suffix(core)
+            if suf_ not in ("/",):
+                rep.violation("R7.2", construct(eap, text=f"suffix {suf_!r}"), where(eap), "the sanitiser appends something other than the constant '/' after normalising")
         if not _is_ext(core, *NORMALISERS):
             rep.violation("R7.2", construct(eap, text=f"return {show(v)[:80]}"), where(eap), "the returned path is not normalised with abspath/normpath/realpath before the confinement test (dot segments survive)")
             continue
@@ -277,7 +276,7 @@ def run(p: Program, rep: Report, tier: str) -> None:
                 rep.violation("R7.5", construct(e2, text=f"return {show(v)[:60]}"), where(e2), f"{side} Pages.ensure_absolute_path returns a path that did not come from the base sanitiser")
             elif v == sup:
                 rep.ok("R7.5", f"{side} Pages: returns the base sanitiser's result")
-            elif v == ("binop", "Add", sup, ("const", "index.html")) and (("call", ("attr", sup, "endswith"), (("const", "/"),), (), 0)[:4] in [f[:4] for f, t in pa.facts if t and f[0] == "call"]):
+            elif split_suffix(v) == (sup, "index.html") and (("call", ("attr", sup, "endswith"), (("const", "/"),), (), 0)[:4] in [f[:4] for f, t in pa.facts if t and f[0] == "call"]):
                 rep.ok("R7.5", f"{side} Pages: appends the constant 'index.html' only to a result ending in '/'")
             else:
                 rep.violation("R7.5", construct(e2, text=f"return {show(v)[:80]}"), where(e2), f"{side} Pages.ensure_absolute_path appends something other than 'index.html' to a '/'-terminated sanitised path")
@@ -285,9 +284,9 @@ def run(p: Program, rep: Report, tier: str) -> None:
         paths, col, it = run_paths(p, call, pg)
         for pa in paths:
             for e in pa.events:
-                if e.kind == "call" and callee_is(e.a, "check_path_is_file") and e.b and e.b[0][0] == "binop":
+                if e.kind == "call" and callee_is(e.a, "check_path_is_file") and e.b and split_suffix(e.b[0]) is not None:
                     # the '.html' retry happens only when the first stat found nothing
-                    first = e.b[0][2]
+                    first = split_suffix(e.b[0])[0]
                     want = (("cmp", "Is", ("unpack", ("call", ("func", "baize.staticfiles:BaseFiles.check_path_is_file"), (first,), (), 0), 0), NONE), True)
                     okf = any(t and f[0] == "cmp" and f[1] == "Is" and f[3] == NONE and f[2][0] == "unpack" and f[2][2] == 0 and f[2][1][0] == "call" and f[2][1][2] == (first,) for f, t in pa.facts)
                     if okf:
@@ -303,7 +302,8 @@ def run(p: Program, rep: Report, tier: str) -> None:
                         node, f = col.nodes[e.tag]
                         rep.violation("R7.5", construct(call, text="redirect"), where(call, node), f"{side} Pages: redirect issued without the S_ISDIR test")
                     url = e.b[0] if e.b else None
-                    if url is not None and "path=(" in show(url) and "+ '/')" in show(url):
+                    pkw = dict(url[3]).get("path") if url is not None and url[0] == "call" and len(url) > 3 else None
+                    if pkw is not None and split_suffix(pkw) is not None and split_suffix(pkw)[1] == "/" and split_suffix(pkw)[0][0] == "attr" and split_suffix(pkw)[0][2] == "path":
                         rep.ok("R7.5", f"{side} Pages: redirect target is the same URL path + '/'")
                     else:
                         node, f = col.nodes[e.tag]
@@ -387,7 +387,7 @@ def _classify(pa: Path, returned: Value, DIR: Value) -> str:
             arg = f[2][0] if f[2] else None
             if arg == ("const", "..") and t is False:
                 verdict = "over" if verdict == "none" else verdict
-            elif arg is not None and arg[0] == "binop" and arg[1] == "Add" and arg[2] == ("const", "..") and t is False:
+            elif arg is not None and split_prefix(arg) is not None and split_prefix(arg)[0] == ".." and t is False:
                 seen_sep = True
             elif arg == ("const", "../") and t is False:
                 seen_sep = True
@@ -410,7 +410,7 @@ def _classify(pa: Path, returned: Value, DIR: Value) -> str:
                 if recv != returned:
                     return "other-value"
                 verdict = "under"
-            elif arg is not None and arg[0] == "binop" and arg[1] == "Add" and arg[2] == DIR:
+            elif arg is not None and ((arg[0] == "binop" and arg[1] == "Add" and arg[2] == DIR) or (split_suffix(arg) is not None and split_suffix(arg)[0] == DIR) or (arg[0] == "fstr" and arg[1] and arg[1][0] == DIR)):
                 if recv != returned:
                     return "other-value"
                 return "ok"
